@@ -351,7 +351,7 @@ instance decMItemOK (x : MItem) : Decidable x.OK := by
   cases x with
   | scalar s => exact inferInstanceAs (Decidable s.OK)
   | entry k v => exact inferInstanceAs (Decidable (_ ∧ _ ∧ v.OK))
-instance decMValueOK (v : MValue) : Decidable v.OK := by
+instance decMapValueOK (v : MValue) : Decidable v.OK := by
   cases v with
   | scalar s => exact inferInstanceAs (Decidable s.OK)
   | list items => exact inferInstanceAs (Decidable (∀ x ∈ items, x.OK))
@@ -360,7 +360,7 @@ instance decMItemEmitOK (x : MItem) : Decidable (MItemEmitOK x) := by
   cases x with
   | scalar s => exact inferInstanceAs (Decidable (ListDoc.ItemEmitOK s))
   | entry k v => cases v <;> (simp only [MItemEmitOK, EntryEmitOK]; infer_instance)
-instance decMLineEmitOK (ln : MLine) : Decidable ln.EmitOK := by
+instance decMapLineEmitOK (ln : MLine) : Decidable ln.EmitOK := by
   obtain ⟨key, v⟩ := ln
   cases v with
   | scalar s => exact inferInstanceAs (Decidable (FLine.mk key s).EmitOK)
@@ -387,15 +387,15 @@ def mxLines : List MLine :=
 theorem mxLines_ok : MLinesOK mxLines := by
   refine ⟨?_, ?_⟩ <;> decide +kernel
 
-def mxText : Str := mdocText "DOC".toList (canonML mxLines)
+def mapExText : Str := mdocText "DOC".toList (canonML mxLines)
 
-example : mxText =
+example : mapExText =
     "===DOC===\nK::[\n  zz,\n  a::1,\n  b::\"q \\\" \\\\ :: , ] x\",\n  \"x y\",\n  c::true,\n  n::null,\n  w::word,\n  a::-2\n]\nZ::[\n  only::\"\",\n  PATTERN::\"abc\",\n  ENUM::\"a b\"\n]\nS::[1,2]\n===END===\n".toList := by
   decide +kernel
 
 /-- every theorem applied (not evaluated) to the example, whatever positions the nodes carry. -/
-example : emit Env.ascii { name := "DOC".toList, sections := mnodesAt 40 (canonML mxLines) } = some mxText ∧
-    Parser.parse Env.ascii mxText = .ok (mdocAt "DOC".toList (canonML mxLines)) := by
+example : emit Env.ascii { name := "DOC".toList, sections := mnodesAt 40 (canonML mxLines) } = some mapExText ∧
+    Parser.parse Env.ascii mapExText = .ok (mdocAt "DOC".toList (canonML mxLines)) := by
   have hno := mnodesOf_mnodesAt (canonML mxLines) 40
   rw [canonML_fst] at hno
   exact C01_maps_canonical_is_readable Env.ascii "DOC".toList mxLines _ hno (by decide) (by decide) mxLines_ok (by decide) (fun _ _ => rfl)
@@ -431,7 +431,7 @@ example : mxLines.map (fun ln => ln.v.canonLayout) = [.multi 2, .multi 2, .inlin
 def mxInline : List ML := mxLines.map fun ln => (ln, .inline)
 theorem mxInline_fst : mxInline.map Prod.fst = mxLines := by decide +kernel
 
-example : canonStrict Env.ascii (mdocText "DOC".toList mxInline) = .ok mxText := by
+example : canonStrict Env.ascii (mdocText "DOC".toList mxInline) = .ok mapExText := by
   have := (C03_maps_layouts_converge Env.ascii "DOC".toList mxInline (by decide) (by decide)
     (by intro x hx; exact mxLines_ok.1 x.1 (by rw [← mxInline_fst]; exact List.mem_map.mpr ⟨x, hx, rfl⟩))
     (by intro x hx; exact mxLines_ok.2 x.1 (by rw [← mxInline_fst]; exact List.mem_map.mpr ⟨x, hx, rfl⟩))
@@ -439,14 +439,14 @@ example : canonStrict Env.ascii (mdocText "DOC".toList mxInline) = .ok mxText :=
   rw [this, mxInline_fst]; rfl
 
 /-- the lenient reader on the example (it holds `PATTERN::"abc"` and `ENUM::"a b"`, which draw warnings): same document. -/
-example : ∃ ws, Parser.parseWithWarnings Env.ascii mxText
+example : ∃ ws, Parser.parseWithWarnings Env.ascii mapExText
     = .ok (mdocAt "DOC".toList (canonML mxLines), toksReps (mdocToks "DOC".toList (canonML mxLines)), ws) :=
   C01_maps_text_read_lenient_any Env.ascii "DOC".toList (canonML mxLines) (by decide) (by decide)
     (canonML_ok mxLines mxLines_ok.1) (by decide) (fun _ _ => rfl)
 
 /-- … and with the exact warnings, on the example itself: one `constructor_misuse` per quoted string under a constructor name,
 at the position of its key (lines 14 and 15 of the canonical text, column 3). -/
-example : Parser.parseWithWarnings Env.ascii mxText
+example : Parser.parseWithWarnings Env.ascii mapExText
     = .ok (mdocAt "DOC".toList (canonML mxLines), toksReps (mdocToks "DOC".toList (canonML mxLines)),
         [.constructorMisuse "PATTERN".toList "abc".toList 14 3, .constructorMisuse "ENUM".toList "a b".toList 15 3]) := by
   have h := (C01_maps_text_read_lenient_exact Env.ascii "DOC".toList (canonML mxLines) (by decide) (by decide)
@@ -487,14 +487,14 @@ example (st : Parser.PState) (lb kt a rb n : Token) (k : List Token) (l c : Nat)
 /-! ### the whole model evaluated on the same document (independent of the theorems) -/
 
 example : (match emit Env.ascii { name := "DOC".toList, sections := mnodesAt 40 (canonML mxLines) } with
-    | some t => t == mxText | none => false) = true := by decide +kernel
-example : (match tokenize Env.ascii mxText with
+    | some t => t == mapExText | none => false) = true := by decide +kernel
+example : (match tokenize Env.ascii mapExText with
     | .ok p => p == (mdocToks "DOC".toList (canonML mxLines), toksReps (mdocToks "DOC".toList (canonML mxLines))) | .error _ => false) = true := by
   decide +kernel
-example : isOkStr (canonStrict Env.ascii mxText) mxText = true := by decide +kernel
-example : isOkStr (canonLenient Env.ascii mxText) mxText = true := by decide +kernel
+example : isOkStr (canonStrict Env.ascii mapExText) mapExText = true := by decide +kernel
+example : isOkStr (canonLenient Env.ascii mapExText) mapExText = true := by decide +kernel
 /-- the one-line spelling of the same document converges on the canonical text (theorem and evaluation). -/
-example : isOkStr (canonStrict Env.ascii (mdocText "DOC".toList (mxLines.map fun ln => (ln, .inline)))) mxText = true := by decide +kernel
+example : isOkStr (canonStrict Env.ascii (mdocText "DOC".toList (mxLines.map fun ln => (ln, .inline)))) mapExText = true := by decide +kernel
 
 /-! ### the edge of the class: the model at the excluded points (the real code does the same, see the report) -/
 
@@ -510,6 +510,14 @@ example : isOkStr (canonStrict Env.ascii "===D===\nK::[PATTERN::abc]\n===END===\
 /-- `Quiet` is not needed for the bytes: a quoted string under a constructor name is a fixed point (one warning, lenient). -/
 example : isOkStr (canonStrict Env.ascii "===D===\nK::[\n  ENUM::\"a b\"\n]\n===END===\n".toList) "===D===\nK::[\n  ENUM::\"a b\"\n]\n===END===\n".toList = true := by
   decide +kernel
+/-- a MULTI-pair inline map (only an API-built AST has one) is written `a::1,b::2` on ONE item line and read back as TWO maps:
+the text is not a fixed point, it converges in one more step. -/
+example : emit Env.ascii { name := "D".toList, sections := [.assign "K".toList (.list [.imap [("a".toList, .int 1), ("b".toList, .int 2)]]) 0 0 [] none] }
+    = some "===D===\nK::[\n  a::1,b::2\n]\n===END===\n".toList := by decide +kernel
+example : isOkStr (canonStrict Env.ascii "===D===\nK::[\n  a::1,b::2\n]\n===END===\n".toList) "===D===\nK::[\n  a::1,\n  b::2\n]\n===END===\n".toList = true := by
+  decide +kernel
+/-- an inline-map item alone forces the multi-line layout (`needsMultiline_mitems`). -/
+example : (MValue.list [.entry "a".toList (.int 1)]).canonLayout = .multi 2 := by decide +kernel
 /-- duplicate keys in different items never meet: two maps. -/
 example : isOkStr (canonStrict Env.ascii "===D===\nK::[a::1,a::2]\n===END===\n".toList) "===D===\nK::[\n  a::1,\n  a::2\n]\n===END===\n".toList = true := by
   decide +kernel
